@@ -184,6 +184,7 @@ func FuncBuilder(env *Zlisp, name string,
 	sfun.SetFormalSymbols(argsyms)
 	sfun.inputTypes = inHash
 	sfun.returnTypes = retHash
+	gen.self = sfun
 	gen.knownFunctions[env.MakeSymbol(funcName).number] = sfun
 
 	for i := len(argsyms) - 1; i >= 0; i-- {
